@@ -96,6 +96,7 @@ func VerifMemMetadata() {
 // while holding the reservation.
 func VerifFindingMemCreateSizeWrap() {
 	capacity := verif.Uint64("capacity")
+	verif.Assume(capacity <= 1<<62) // a blob of 2^64-1 bytes can then never fit
 	h := vmNew(capacity, 2)
 	h.sizeFn = func() uint64 { return 1 }
 	h.do(voCreate, 0, storelib.BlobScopeAny)
